@@ -125,6 +125,15 @@ class Check:
         of every scenario and prints it with the predicted observations; each behaviour is
         replayed on the real code."""
         opts = opts or {}
+        tmpcfg = None
+        if max_steps:
+            # a family that needs more fuel than the default: same configuration, larger MaxSteps
+            base = open(os.path.join(tlc.SPEC, cfg)).read()
+            import re as _re
+            tmpcfg = "%s-%d-%d.cfg" % (cfg[:-4], max_steps, os.getpid())
+            with open(os.path.join(tlc.SPEC, tmpcfg), "w") as f:
+                f.write(_re.sub(r"MaxSteps = \d+", "MaxSteps = %d" % max_steps, base))
+            cfg = tmpcfg
         for i, s in enumerate(scns):
             s["id"] = i + 1
             s.setdefault("engines", 1)
@@ -179,6 +188,11 @@ class Check:
         import concurrent.futures
         with concurrent.futures.ThreadPoolExecutor(par) as ex:
             parts = [r for rs in ex.map(run_chunk, enumerate(chunks)) for r in rs]
+        if tmpcfg:
+            try:
+                os.unlink(os.path.join(tlc.SPEC, tmpcfg))
+            except OSError:
+                pass
         res = tlc.TLCResult()
         for r in parts:
             res.records.extend(r.records)
